@@ -7,6 +7,29 @@ from .. import cbdoc, common, cxxmodel, cxxrun, gen_expr as ge
 from .c01 import translate_docs
 
 
+def nul_cut_only(got, exp, src):
+    """True iff the traces differ ONLY in string items of console.* effects, each observed string being the expected one
+    cut at its first U+0000, and the handler source spells a NUL escape in a literal (the listed finding's prediction)."""
+    import re
+    if len(got) != len(exp) or not re.search(r"\\(0(?![0-9])|x00|u0000|u\{0+\})", src):
+        return False
+    hit = False
+    for a, b in zip(got, exp):
+        if a == b:
+            continue
+        if not (a[0] == b[0] == "log" and a[1] == b[1] and len(a[2]) == len(b[2])):
+            return False
+        for x, y in zip(a[2], b[2]):
+            if x == y:
+                continue
+            if not (isinstance(x, tuple) and isinstance(y, tuple) and x[:1] == y[:1] == ("s",)):
+                return False
+            if 0 not in y[1] or tuple(x[1]) != tuple(y[1][:list(y[1]).index(0)]):
+                return False
+            hit = True
+    return hit
+
+
 def run(tier, seed, replay=None):
     v = common.Verdict("C13", tier, seed)
     rng = common.rng_for(seed, "C13", tier)
@@ -118,7 +141,10 @@ def run(tier, seed, replay=None):
                     k = next((j for j, (a, b) in enumerate(zip(got, exp)) if a != b), min(len(got), len(exp)))
                     what = "extra-effect" if len(got) > len(exp) and got[:len(exp)] == exp else \
                         "missing-effect" if len(got) < len(exp) and exp[:len(got)] == got else "different-effect"
-                    v.violation("trace:" + what, "handler %s.on%s with arguments %r: effect #%d is %r, source prescribes %r (%d vs %d effects)"
+                    sig = "trace:" + what
+                    if nul_cut_only(got, exp, h.src):
+                        sig = "console-log-constant-nul-truncated"   # listed finding, matched on its exact prediction only
+                    v.violation(sig, "handler %s.on%s with arguments %r: effect #%d is %r, source prescribes %r (%d vs %d effects)"
                                 % (h.sender, h.signal, cases[ci][1][hi], k, got[k] if k < len(got) else None,
                                    exp[k] if k < len(exp) else None, len(got), len(exp)),
                                 {"handler": h.src, "arguments": cases[ci][1][hi], "state": cases[ci][0], "expected": [str(x) for x in exp],
